@@ -9,6 +9,7 @@ import astropy.units as u
 from astropy.coordinates import Angle, frame_transform_graph
 from astropy.utils.data import get_readable_fileobj
 
+from regions._utils import verif as _verif
 from regions.core import Regions
 from regions.core.registry import RegionsRegistry
 from regions.io.crtf.core import (CRTFRegionParserError,
@@ -201,7 +202,12 @@ class _CRTFParser:
         This function splits the regions into lines and calls
         ``parse_line`` for each line.
         """
-        for line in self.region_string.split('\n'):
+        def _state():
+            return {'global_meta': dict(self.global_meta),
+                    'n_shapes': len(self.shapes)}
+
+        for line in _verif.traced(self.region_string.split('\n'),
+                                  'crtf.read.line', _state):
             self.parse_line(line)
 
     def parse_global_meta(self, global_meta_str):
